@@ -1897,6 +1897,47 @@ def install_models(I):
     S.append(("fmt::Arguments::new_v1", lambda I, a, f: Opaque("fmt")))
 
 
+FELT_REGISTRY = {}     # name of a `felt[<term>]` variable -> machine-integer term (filled by the process model)
+
+
+def int_range(t, depth=0):
+    """sound interval of a machine-integer term (values before any wrapping are not tracked: only range-reducing operators)"""
+    top = (0, 2 ** 64 - 1)
+    if isinstance(t, bool):
+        return (int(t), int(t))
+    if isinstance(t, int):
+        return (t, t)
+    if not isinstance(t, Term) or depth > 12:
+        return top
+    a = t.args
+    if t.op == "as_int" and len(a) == 1:
+        x = a[0]
+        if isinstance(x, Poly):
+            cv = x.const_value()
+            if cv is not None:
+                return (cv, cv)
+            vs = sorted(x.vars())
+            if len(vs) == 1 and x == Poly.var(vs[0]) and vs[0] in FELT_REGISTRY:
+                lo, hi = int_range(FELT_REGISTRY[vs[0]], depth + 1)
+                if hi < P:
+                    return (lo, hi)
+        return (0, P - 1)
+    if t.op in ("as_u64", "as_usize") and len(a) == 1:
+        return int_range(a[0], depth + 1)
+    if t.op == "as_u32" and len(a) == 1:
+        lo, hi = int_range(a[0], depth + 1)
+        return (lo, hi) if hi < 2 ** 32 else (0, 2 ** 32 - 1)
+    if t.op == "as_u16" and len(a) == 1:
+        lo, hi = int_range(a[0], depth + 1)
+        return (lo, hi) if hi < 2 ** 16 else (0, 2 ** 16 - 1)
+    if t.op == "&" and len(a) == 2:
+        return (0, min(int_range(x, depth + 1)[1] for x in a))
+    if t.op == ">>" and len(a) == 2 and isinstance(a[1], int) and not isinstance(a[1], bool):
+        lo, hi = int_range(a[0], depth + 1)
+        return (lo >> a[1], hi >> a[1])
+    return top
+
+
 def simplify_term(op, a, b):
     """identities on machine-integer terms: x*0 = 0, x*1 = x, x+0 = x, (x - c) + c = x"""
     isz = lambda v: isinstance(v, int) and not isinstance(v, bool) and v == 0
@@ -1918,6 +1959,13 @@ def simplify_term(op, a, b):
                 return x.args[0]
     if op == "-" and isz(b):
         return a
+    # interval folding of comparisons with a constant: halves of a split, masked and shifted values have known ranges
+    if op in ("<", "<=", ">", ">=") and isinstance(a, Term) and isinstance(b, int) and not isinstance(b, bool):
+        lo, hi = int_range(a)
+        if op == "<=" and hi <= b or op == "<" and hi < b or op == ">=" and lo >= b or op == ">" and lo > b:
+            return True
+        if op == "<=" and lo > b or op == "<" and lo >= b or op == ">=" and hi < b or op == ">" and hi <= b:
+            return False
     # a canonical field element is below the modulus
     if isinstance(a, Term) and a.op == "as_int" and isinstance(b, int) and not isinstance(b, bool):
         if op == ">=" and b >= P:
